@@ -247,10 +247,11 @@ class AbsSpectrumCalculator(EnergyUnitsManaged):
             
         # Fourier transform the result
         
-        ft = dd*numpy.fft.hfft(at)*ta.step
+        # hfft is a transform with -i; the complex conjugated signal gives
+        # the transform with +i. The length 2*Nt makes the result correspond
+        # point by point to the frequency axis derived from the time axis.
+        ft = dd*numpy.fft.hfft(numpy.conj(at), n=2*ta.length)*ta.step
         ft = numpy.fft.fftshift(ft)
-        # invert the order because hfft is a transform with -i
-        ft = numpy.flipud(ft)   
         # cut the center of the spectrum
         Nt = ta.length #len(ta.data)        
         return ft[Nt//2:Nt+Nt//2]
@@ -382,10 +383,11 @@ class AbsSpectrumCalculator(EnergyUnitsManaged):
         #
         # Fourier transform of the time-dependent result
         #
-        ft = numpy.fft.hfft(at)*time.step
+        # hfft is a transform with -i; the complex conjugated signal gives
+        # the transform with +i. The length 2*Nt makes the result correspond
+        # point by point to the frequency axis derived from the time axis.
+        ft = numpy.fft.hfft(numpy.conj(at), n=2*time.length)*time.step
         ft = numpy.fft.fftshift(ft)
-        # invert the order because hfft is a transform with -i
-        ft = numpy.flipud(ft)   
         # cut the center of the spectrum
         Nt = time.length #len(ta.data)        
         data = ft[Nt//2:Nt+Nt//2]
